@@ -57,6 +57,9 @@ pub fn skeletons() -> Vec<Query> {
     q.root_params = vec![("min".into(), values::i(1))];
     v.push(q);
     let mut q = skeleton();
+    q.root_params = vec![("min".into(), FV::Null), ("only".into(), values::s("a"))];
+    v.push(q);
+    let mut q = skeleton();
     q.root = "One".into();
     v.push(q);
     let mut q = skeleton();
@@ -175,10 +178,13 @@ fn edge_variants(schema: &SchemaModel, ty: &str) -> Vec<(String, Vec<(String, FV
                 if f.name == "req" {
                     // required parameter: only the explicit form is a valid query
                     out.push((f.name.clone(), vec![("k".into(), values::i(1))]));
+                    // explicit null for a nullable parameter that has a non-null declared default
+                    out.push((f.name.clone(), vec![("k".into(), values::i(0)), ("lim".into(), FV::Null)]));
                     continue;
                 }
                 out.push((f.name.clone(), vec![]));
                 if f.name == "nb" {
+                    out.push((f.name.clone(), vec![("tag".into(), FV::Null)]));
                     out.push((f.name.clone(), vec![("min".into(), values::i(2))]));
                     out.push((f.name.clone(), vec![("tag".into(), values::s("a")), ("min".into(), values::i(1))]));
                 }
